@@ -555,3 +555,74 @@ func boolDeciders(h *ssa.Function, want bool) []boolDecider {
 	}
 	return out
 }
+
+// checkExportVerbatim (C12.exportverbatim): what ExportGenesis reads from the keepers is exported as stored. The export
+// trees build new genesis records (stores into their own composite literals are construction) but must not modify, in
+// place, a record that came out of a keeper - except for the reviewed transformations of the table below. A record
+// re-spelled, re-keyed or "normalised" on export no longer matches what the parameters and the runtime look it up by.
+var exportTransformations = map[string]string{
+	"State.Account=nil": "the burn state's account is blanked on export; import and the block routines accept both shapes (C12.shape, C12.sameshape)",
+}
+
+func checkExportVerbatim(w *World, r *Report, rule string, exports []*ssa.Function) {
+	var fns []*ssa.Function
+	for fn := range w.CG().Reach(exports) {
+		if w.isProdFunc(fn) && !strings.Contains(funcName(fn), "/keeper.") {
+			fns = append(fns, fn)
+		}
+	}
+	sort.Slice(fns, func(i, j int) bool { return fns[i].String() < fns[j].String() })
+	tr := w.Tracer()
+	n := 0
+	for _, fn := range fns {
+		for _, fs := range FieldStores(fn) {
+			if fs.Struct == nil || fs.Struct.Obj().Pkg() == nil || !strings.HasPrefix(fs.Struct.Obj().Pkg().Path(), modPath) {
+				continue
+			}
+			// the record written into: a local composite literal (construction) or something that came from elsewhere
+			root := fs.FA.X
+			viaElem := false
+			for i := 0; i < 8; i++ {
+				switch x := root.(type) {
+				case *ssa.FieldAddr:
+					root = x.X
+					continue
+				case *ssa.IndexAddr:
+					root = x.X
+					viaElem = true
+					continue
+				case *ssa.UnOp:
+					if x.Op == token.MUL {
+						root = x.X
+						continue
+					}
+				}
+				break
+			}
+			if al, isAl := root.(*ssa.Alloc); isAl && !viaElem {
+				// a local: construction, unless the local holds a record copied out of a keeper result and is exported
+				if !tr.Origins(al).HasLeaf("call", "keeper.Keeper.") {
+					continue
+				}
+			}
+			o := tr.Origins(root)
+			if !o.HasLeaf("call", "keeper.Keeper.") && !o.HasLeaf("outparam", "") {
+				continue
+			}
+			n++
+			key := fs.Struct.Obj().Name() + "." + fs.Field + "="
+			if isNilConst(fs.Store.Val) {
+				key += "nil"
+			} else {
+				key += "value"
+			}
+			construct := fmt.Sprintf("%s: stored %s modified in place on export", funcName(fn), fs.Struct.Obj().Name()+"."+fs.Field)
+			if why, ok := exportTransformations[key]; ok {
+				r.Assume(rule, construct, w.Pos(fs.Store.Pos()), "reviewed transformation: "+why)
+			} else {
+				r.Bad(rule, construct, w.Pos(fs.Store.Pos()), "ExportGenesis changes a record that it read from the keeper before exporting it ("+key+"): the exported state is not the stored state - what the parameters and the block routines look this record up by no longer matches after a restart from the export")
+			}
+		}
+	}
+	r.Check(n >= 1, rule, "in-place modifications on the export trees enumerated", "", fmt.Sprintf("%d (the reviewed blanking of the burn state's account)", n), "the enumeration found nothing: the rule no longer sees the export code")
+}
